@@ -213,16 +213,25 @@ def check_connect(sess):
         sess.absorb(ctx, replay=replay15('connect'))
     if n == 0:
         raise EngineError('connect: no path')
-    # already connected: returns True at once and writes nothing
-    ctx = sess.new_ctx()
-    sm.install_common(ctx)
-    ex = Exec(ctx)
-    p = Path()
-    obj = sm.new_ebb3(p, cls=sm.EBB3, port=True)
-    for q, out in ex.run_function(p, EB3, 'EBB3.connect', [obj, NONE, NONE]):
-        if no_raise(ex, q, out, 'EBB3.connect[already-connected]'):
-            oblige_at(ex, q, 'EBB3.connect[already-connected]', 'ensures', not q.events, 'already-connected=>nothing-transmitted')
-    sess.absorb(ctx, replay=replay15('connect'))
+    # port already open: returns at once and writes nothing; in particular an object left with the port open and an error recorded
+    # (firmware too old) must not come out of connect() as "connected, no error" -- the class invariant behind the handshake clause is
+    #   port is not None and err is None  =>  this board passed the identification of a connect()
+    for has_err in (False, True):
+        ctx = sess.new_ctx()
+        sm.install_common(ctx)
+        ctx.contracts[f'{sm.EBB3}.record_error'] = sm.RecordError()
+        ex = Exec(ctx)
+        p = Path()
+        e0 = sm.fresh_err('old_firmware_error') if has_err else None
+        obj = sm.new_ebb3(p, cls=sm.EBB3, port=True, err=e0)
+        tag = f'EBB3.connect[port-open,err-{"set" if has_err else "None"}]'
+        for q, out in ex.run_function(p, EB3, 'EBB3.connect', [obj, NONE, NONE]):
+            if no_raise(ex, q, out, tag):
+                oblige_at(ex, q, tag, 'ensures', not q.events, 'port-already-open=>nothing-transmitted')
+                err = sm.field(q, obj, 'err')
+                oblige_at(ex, q, tag, 'ensures', (not isinstance(err, VNone)) if has_err else isinstance(err, VNone),
+                          'an-unverified-board-stays-in-the-error-state(err-not-cleared)')
+        sess.absorb(ctx, replay=replay15('connect'))
 
 
 # ------------------------------------------------------------------------------ (c) legacy gates
